@@ -267,8 +267,17 @@ def _perm_mm(case):
     A = ml.model_fields(kind, ma, posterior=pa)
     B = ml.model_fields(kind, mb, posterior=pb)
     raw = None if (pa is None or pb is None) else (ml.model_arrays(kind, ma, posterior=pa), ml.model_arrays(kind, mb, posterior=pb))
+    amp = None
+    if case['iterations'] > 3 and raw is not None:
+        # rounding amplification of THIS run: the same labels, initialisation perturbed by one ulp (relative 2^-52)
+        init_p = init * (1.0 + 2.0 ** -52 * rng.choice([-1.0, 1.0], size=init.shape))
+        mp_, ep = call(ml.fit, kind, data, init_p, case['iterations'], opts)
+        pp, e3 = (None, '') if mp_ is None else call(ml.predict, kind, mp_, data)
+        if pp is not None:
+            amp = [float(np.max(np.abs(np.asarray(x) - np.asarray(y_))) if np.size(x) else 0.0)
+                   for x, y_ in zip(raw[0], ml.model_arrays(kind, mp_, posterior=pp))]
     return [ml.twin_record('perm', A, B, kind=kind, wca=case['wca'], pi=pi, exc=e1 or e2, fp=fp, key=key,
-                           slack=2048 if kind == 'cbmm' else 256, fine=-18 if kind == 'cbmm' else -20, raw=raw)]
+                           slack=2048 if kind == 'cbmm' else 256, fine=-18 if kind == 'cbmm' else -20, raw=raw, amp=amp)]
 
 
 def _stack_mm(case):
